@@ -66,6 +66,20 @@ GetInt(ev) ==
        ELSE IF ev.hasdef = 1 THEN Chk(ev.out = "ok" /\ ev.ret = ev.def, "integer getter: absent argument yields the supplied default")
        ELSE Chk(ev.out = "out_of_range", "integer getter: absent argument must throw out_of_range")
   /\ Finish(ev, k.p, k.n)
+(* decimal literals with their correctly rounded double (IEEE 754 bit pattern, most significant byte first), derived
+   with exact rational arithmetic: the first three lie just past the midpoint of two adjacent doubles, the fourth exactly
+   on one (ties to even) - a conversion that rounds twice (through a wider or narrower type) gets them wrong *)
+ExactDoubles == <<
+  <<<<57, 48, 48, 55, 49, 57, 57, 50, 53, 52, 55, 52, 48, 57, 57, 51, 46, 48, 48, 48, 49>>, <<67, 64, 0, 0, 0, 0, 0, 1>>>>,
+  <<<<49, 56, 52, 52, 54, 55, 52, 52, 48, 55, 51, 55, 48, 57, 53, 53, 51, 54, 54, 53>>, <<67, 240, 0, 0, 0, 0, 0, 1>>>>,
+  <<<<49, 46, 48, 48, 48, 48, 48, 48, 48, 48, 48, 48, 48, 48, 48, 48, 48, 49, 49, 49, 48, 50, 50, 51, 48, 50, 52, 54, 50, 53, 49, 53, 54, 53, 52, 48, 52, 50, 51, 54, 51, 49, 54, 54, 56, 48, 57, 48, 56, 50, 48, 51, 49, 50, 54>>, <<63, 240, 0, 0, 0, 0, 0, 1>>>>,
+  <<<<57, 48, 48, 55, 49, 57, 57, 50, 53, 52, 55, 52, 48, 57, 57, 51>>, <<67, 64, 0, 0, 0, 0, 0, 0>>>>,
+  <<<<48, 46, 49>>, <<63, 185, 153, 153, 153, 153, 153, 154>>>>,
+  <<<<49, 46, 53>>, <<63, 248, 0, 0, 0, 0, 0, 0>>>>,
+  <<<<49, 101, 53>>, <<64, 248, 106, 0, 0, 0, 0, 0>>>> >>
+ExactBitsOk(ev, text) ==
+  LET S == {i \in DOMAIN ExactDoubles : ExactDoubles[i][1] = text} IN
+  S = {} \/ ev.dbl = 0 \/ ev.fbits = ExactDoubles[CHOOSE i \in S : TRUE][2]
 FloatValueOk(ev, f) ==
   IF f.special \/ ~f.exact \/ ev.dbl = 0 \/ f.exp > 300 \/ f.exp < -300 THEN TRUE      \* outside the normal double range only the outcome is fixed
   ELSE /\ ev.fneg = (IF f.neg THEN 1 ELSE 0)
@@ -75,7 +89,8 @@ GetFloat(ev) ==
   LET k == Lookup(ev)
       f == ParseFloat(k.text) IN
   /\ IF k.present
-       THEN IF f.ok THEN Chk(ev.out = "ok" /\ FloatValueOk(ev, f), "float getter: complete literal must return its value")
+       THEN IF f.ok THEN /\ Chk(ev.out = "ok" /\ FloatValueOk(ev, f), "float getter: complete literal must return its value")
+                         /\ Chk(ev.out # "ok" \/ ExactBitsOk(ev, k.text), "float getter: not the double nearest to the decimal literal")
             ELSE Chk(ev.out = "invalid_argument" \/ ev.hexfloat = 1, "float getter: incomplete literal must throw invalid_argument")
        ELSE IF ev.hasdef = 1 THEN Chk(ev.out = "ok" /\ ev.isdef = 1, "float getter: absent argument yields the default")
        ELSE Chk(ev.out = "out_of_range", "float getter: absent argument must throw out_of_range")
